@@ -98,31 +98,32 @@ def pairs(k, cone, island, solver, jacobian):
 
 
 def scenarios(thorough: bool):
-    """(name, xml) list.  The option lattice is cone x island x (solver, jacobian): complete in thorough, a 4-element
-    covering sub-lattice (every value of every factor occurs) in quick."""
+    """(name, xml) list.  The option lattice cone x island x (solver, jacobian) is complete in thorough; quick takes one
+    small model per allocation-site family with two covering lattice points."""
     out = []
-    if thorough:
-        lattice = [(c, i, s, j) for c in ("pyramidal", "elliptic") for i in (True, False)
-                   for s in ("Newton", "CG", "PGS") for j in ("dense", "sparse")]
-    else:
-        lattice = [("pyramidal", True, "Newton", "dense"), ("elliptic", False, "PGS", "sparse"),
-                   ("pyramidal", False, "PGS", "dense"), ("elliptic", True, "CG", "sparse")]
-    for n, (cone, island, solver, jac) in enumerate(lattice):
+    if not thorough:
+        a = ("pyramidal", True, "Newton", "dense")
+        b = ("elliptic", False, "PGS", "sparse")
+        tag = lambda t: "%s,%s,%s,%s" % (t[0], "island" if t[1] else "noisland", t[2], t[3])
+        out.append(("chain4[%s]" % tag(a), chain(4, *a)))          # efc arrays, island arrays, equality rows
+        out.append(("chain4[%s]" % tag(b), chain(4, *b)))          # dual arrays Y / AR
+        out.append(("mixed[%s]" % tag(b), mixed(*b)))              # contact + limit + weld, 3 trees
+        out.append(("clump3[%s]" % tag(a), clump(3, *a)))          # contacts, midphase, island arrays with contacts
+        out.append(("pairs8[%s]" % tag(a), pairs(8, *a)))          # pair buffer
+        return out
+    lattice = [(c, i, s, j) for c in ("pyramidal", "elliptic") for i in (True, False)
+               for s in ("Newton", "CG", "PGS") for j in ("dense", "sparse")]
+    for cone, island, solver, jac in lattice:
         tag = "%s,%s,%s,%s" % (cone, "island" if island else "noisland", solver, jac)
         out.append(("mixed[%s]" % tag, mixed(cone, island, solver, jac)))
-        out.append(("chain%d[%s]" % (8 if thorough else 4, tag), chain(8 if thorough else 4, cone, island, solver, jac)))
-        if thorough or n < 2:
-            k = 5 if thorough else 3
-            out.append(("clump%d[%s]" % (k, tag), clump(k, cone, island, solver, jac)))
-        if thorough:
-            out.append(("islands4[%s]" % tag, islands(4, cone, island, solver, jac)))
-            out.append(("spheres6[%s]" % tag, spheres(6, cone, island, solver, jac)))
-            if solver == "Newton" and jac == "dense":
-                out.append(("clump5-nomidphase[%s]" % tag, clump(5, cone, island, solver, jac, midphase=False)))
+        out.append(("chain8[%s]" % tag, chain(8, cone, island, solver, jac)))
+        out.append(("clump5[%s]" % tag, clump(5, cone, island, solver, jac)))
+        out.append(("islands4[%s]" % tag, islands(4, cone, island, solver, jac)))
+        out.append(("spheres6[%s]" % tag, spheres(6, cone, island, solver, jac)))
+        if solver == "Newton" and jac == "dense":
+            out.append(("clump5-nomidphase[%s]" % tag, clump(5, cone, island, solver, jac, midphase=False)))
     out.append(("pairs8[pyramidal,island,Newton,dense]", pairs(8, "pyramidal", True, "Newton", "dense")))
-    out.append(("islands2[elliptic,island,CG,sparse]", islands(2, "elliptic", True, "CG", "sparse")))
-    if thorough:
-        out.append(("pairs16[elliptic,noisland,PGS,sparse]", pairs(16, "elliptic", False, "PGS", "sparse")))
-        out.append(("spheres20[pyramidal,island,Newton,sparse]", spheres(20, "pyramidal", True, "Newton", "sparse")))
-        out.append(("spheres20[elliptic,noisland,PGS,dense]", spheres(20, "elliptic", False, "PGS", "dense")))
+    out.append(("pairs16[elliptic,noisland,PGS,sparse]", pairs(16, "elliptic", False, "PGS", "sparse")))
+    out.append(("spheres20[pyramidal,island,Newton,sparse]", spheres(20, "pyramidal", True, "Newton", "sparse")))
+    out.append(("spheres20[elliptic,noisland,PGS,dense]", spheres(20, "elliptic", False, "PGS", "dense")))
     return out
